@@ -3,11 +3,13 @@
    that must be armed are armed, the idle deadline arithmetic.  The executor / waker runtime
    (wakeup_queue, event_loop, stream wakers) is NOT modelled: that on_timeout is called when an armed
    timer expires and that transmission interest leads to on_transmit is covered only by the
-   end-to-end runs.  [eventual_delivery] of DESIGN.md 5.2 (composition over a fair scheduler) is not
-   proved here.
+   end-to-end runs.  [C02_eventual_delivery] is the composition theorem on an ABSTRACT composed model
+   (model/Liveness.v) with the scheduler, the network and the sender's blocked flag as oracles under
+   explicit hypotheses; the real flow controller falsifies one of them (C02_interest_reported_refuted).
    Property theorems only; each is closed by [exact] of a lemma proved in proofs/. *)
 From SQ Require Import lib.Base gen.Gen_C02.
 From SQ Require model.Sync proofs.SyncProofs model.IdleTimer model.RecoveryTimer proofs.IdleTimerProofs.
+From SQ Require model.Liveness proofs.LivenessProofs model.FlowSend.
 Import Sync SyncProofs.
 Local Open Scope N_scope.
 
@@ -179,6 +181,94 @@ Theorem C02_pto_cancel_conditions : forall i, IdleTimerProofs.Rec.bookkeeping i 
    (RecoveryTimer.ack_eliciting_in_flight i = false /\ RecoveryTimer.peer_validated i = true)).
 Proof. exact IdleTimerProofs.Rec.pto_cancel_conditions. Qed.
 
+(* ---- composition: eventual delivery on the abstract composed model (model/Liveness.v) ---- *)
+
+(* One finished stream of n chunks; sender with PTO-driven retransmission; receiver reassembling the
+   contiguous prefix; stream and connection credit released as the application reads, carried by two
+   IncrementalValueSync models with thresholds; the network = ANY fault prefix of finite length
+   (each transmission's forward and acknowledgement direction dropped at will) followed by faithful
+   delivery; the scheduler = ANY fair sequence of transmit opportunities / timer expiries /
+   application reads; [mask] = the sender flow controller's "blocked" report.
+   Hypotheses, all visible: windows >= 1, thresholds <= windows, no VarInt overflow, [fair],
+   [finite_faults], [interest_reported] (no masking while stream and connection credit are available).
+   Not in the model: idle expiry during the run (the connection is assumed to stay open),
+   congestion / amplification limits, several streams, packets carrying several frames.
+   Proof: lexicographic measure (unacknowledged chunks, missing credit, unread chunks, frames in
+   flight, pending transmissions); under a faithful network every step is a stutter or strictly
+   decreases it, and in every incomplete state some action decreases it. *)
+Theorem C02_eventual_delivery : forall n ws wc ths thc : N,
+  1 <= ws -> 1 <= wc -> ths <= ws -> thc <= wc ->
+  n + ws <= varint_max -> n + wc <= varint_max ->
+  forall (sched : nat -> Liveness.action) (net : nat -> bool * bool) (mask : nat -> bool),
+  LivenessProofs.fair sched ->
+  LivenessProofs.finite_faults net ->
+  LivenessProofs.interest_reported n ws wc ths thc sched net mask ->
+  exists k : nat, Liveness.complete n (Liveness.run n ws wc ths thc sched net mask k).
+Proof. exact LivenessProofs.eventual_delivery. Qed.
+
+(* complete = all n chunks transmitted, each acknowledged at the sender AND received by the peer,
+   and the receiving application has read all n (the last one carries the FIN) *)
+Theorem C02_complete_meaning : forall n ws wc ths thc : N,
+  1 <= ws -> 1 <= wc -> ths <= ws -> thc <= wc ->
+  n + ws <= varint_max -> n + wc <= varint_max ->
+  forall (sched : nat -> Liveness.action) (net : nat -> bool * bool) (mask : nat -> bool) (k : nat),
+  Liveness.complete n (Liveness.run n ws wc ths thc sched net mask k) ->
+  N.of_nat (length (Liveness.ch (Liveness.run n ws wc ths thc sched net mask k))) = n /\
+  Forall (fun x => x = (Liveness.CAcked, true)) (Liveness.ch (Liveness.run n ws wc ths thc sched net mask k)) /\
+  Liveness.rread (Liveness.run n ws wc ths thc sched net mask k) = n /\
+  N.of_nat (Liveness.prefix_len (Liveness.ch (Liveness.run n ws wc ths thc sched net mask k))) = n.
+Proof. exact LivenessProofs.complete_meaning. Qed.
+
+(* the hypotheses are satisfiable: round-robin scheduler, 40 faulty steps, unmasked sender, stream
+   window 1 and connection window 2 (both kinds of credit blocking occur); complete after 150 steps *)
+Theorem C02_eventual_delivery_instance :
+  (exists k, Liveness.complete 5 (Liveness.run 5 1 2 1 1 LivenessProofs.rr_sched LivenessProofs.ex_net
+                                               LivenessProofs.no_mask k)) /\
+  Liveness.complete 5 (Liveness.run 5 1 2 1 1 LivenessProofs.rr_sched LivenessProofs.ex_net
+                                    LivenessProofs.no_mask 150).
+Proof. exact LivenessProofs.eventual_delivery_instance. Qed.
+
+(* The premise [interest_reported] is FALSE of the real StreamFlowController (send_stream.rs, model
+   FlowSend.v kept equal to the code by the C03 correspondence): stream window 1, connection window
+   50, the data sender asks for [0,150), then MAX_STREAM_DATA = 101 arrives: 50 bytes of credit are
+   available on both windows, the controller still reports BlockedOnConnectionWindow (state 2), so
+   the DataSender's transmission interest stays suppressed.  KNOWN_FINDINGS class
+   both_windows_blocked_state_masks_stream_credit; replayed on the real code by the e2e component. *)
+Theorem C02_interest_reported_refuted :
+  let f := snd LivenessProofs.fc_after_max_stream_data in
+  FlowSend.sfc_avail f = 50 /\ FlowSend.f_st f = 2 /\ ~ LivenessProofs.fc_interest_reported f 1.
+Proof. exact LivenessProofs.interest_reported_refuted. Qed.
+
+(* *_BLOCKED: whenever the sender gets a transmit opportunity while blocked on a window, that
+   window's PeriodicSync (model/Sync.v) has a pending delivery afterwards: BLOCKED frame in flight,
+   wanted, or its timer armed -- a blocked sender never goes silent.  [lim] / [rx] select the window. *)
+Theorem C02_blocked_signalled : forall (n ws wc ths thc : N) (sched : nat -> Liveness.action)
+  (net : nat -> bool * bool) (mask : nat -> bool) (lim : Liveness.st -> N) (rx : Liveness.action) (k : nat),
+  sched k = Liveness.ASend ->
+  Liveness.blocked_on n lim (Liveness.run n ws wc ths thc sched net mask k) = true ->
+  let b := fst (Liveness.blk_run n ws wc ths thc sched net mask lim rx (S k)) in
+  in_flight (pdel b) \/ wants_transmit (pdel b) \/ timer_armed b.
+Proof. exact LivenessProofs.blocked_signalled. Qed.
+
+(* blackhole at the composed level: no packet is processed at either endpoint any more, both idle
+   timers are armed, and each endpoint's timer fires at or after T' + max(idle, 3 PTO) (T' = its last
+   reset: the deadline it had, or the one set by its first ack-eliciting send since the last
+   receive): BOTH endpoints have closed the connection. *)
+Theorem C02_blackhole_closes_both : forall idle es sa sb da db a1 ta a2 b1 tb b2,
+  IdleTimer.iclosed sa = false -> IdleTimer.iclosed sb = false ->
+  IdleTimer.itimer sa = Some da -> IdleTimer.itimer sb = Some db ->
+  IdleTimerProofs.projA es = a1 ++ IdleTimer.Timeout ta :: a2 ->
+  IdleTimerProofs.projB es = b1 ++ IdleTimer.Timeout tb :: b2 ->
+  Forall IdleTimerProofs.not_recv a1 -> Forall IdleTimerProofs.not_recv b1 ->
+  da < IdleTimer.tsn ta + IdleTimer.granularity -> db < IdleTimer.tsn tb + IdleTimer.granularity ->
+  (forall t' p' d, In (IdleTimer.SendAE t' p') a1 -> IdleTimer.idle_duration_ms idle p' = Some d ->
+                   IdleTimer.deadline (IdleTimer.tsn t') d < IdleTimer.tsn ta + IdleTimer.granularity) ->
+  (forall t' p' d, In (IdleTimer.SendAE t' p') b1 -> IdleTimer.idle_duration_ms idle p' = Some d ->
+                   IdleTimer.deadline (IdleTimer.tsn t') d < IdleTimer.tsn tb + IdleTimer.granularity) ->
+  IdleTimer.iclosed (fst (IdleTimerProofs.run2 idle (sa, sb) es)) = true /\
+  IdleTimer.iclosed (snd (IdleTimerProofs.run2 idle (sa, sb) es)) = true.
+Proof. exact IdleTimerProofs.blackhole_closes_both. Qed.
+
 (* ---- non-vacuity ---- *)
 Example C02_example :
   (* threshold 3: transmit 5, lose it, retransmit, acknowledge -> quiescent with 5 acknowledged *)
@@ -218,3 +308,9 @@ Print Assumptions C02_idle_effective_is_min.
 Print Assumptions C02_idle_judge_model.
 Print Assumptions C02_pto_armed_when_required_partial.
 Print Assumptions C02_pto_cancel_conditions.
+Print Assumptions C02_eventual_delivery.
+Print Assumptions C02_complete_meaning.
+Print Assumptions C02_eventual_delivery_instance.
+Print Assumptions C02_interest_reported_refuted.
+Print Assumptions C02_blocked_signalled.
+Print Assumptions C02_blackhole_closes_both.
